@@ -76,6 +76,7 @@ struct ActRun {
   double seen_finish = -1; // clock when on_completion fired
   double sleep_begin = -1, sleep_end = -1;
   std::string wait_result = "-";
+  double wait_end         = -1;
 };
 
 static std::vector<std::string> split(const std::string& s, char sep)
@@ -292,6 +293,7 @@ static void apply_event(const EvSpec& ev)
 
 static void controller(const Case* c)
 {
+  std::vector<sg4::ActorPtr> waiters;
   // merged timeline: (date, seq) ; starts come before events of the same date when declared first
   struct Item {
     double date;
@@ -320,29 +322,32 @@ static void controller(const Case* c)
           rp->sleep_end = sg4::Engine::get_clock();
         });
         r.started = true;
-      } else
+      } else {
         start_activity(r);
+        ActRun* rp = &r;
+        waiters.push_back(sg4::Host::by_name("ctl")->add_actor("waiter-" + r.spec.id, [rp]() {
+          try {
+            rp->act->wait();
+            rp->wait_result = "ok";
+          } catch (const simgrid::HostFailureException&) {
+            rp->wait_result = "HostFailure";
+          } catch (const simgrid::NetworkFailureException&) {
+            rp->wait_result = "NetworkFailure";
+          } catch (const simgrid::StorageFailureException&) {
+            rp->wait_result = "StorageFailure";
+          } catch (const simgrid::CancelException&) {
+            rp->wait_result = "Cancel";
+          } catch (const simgrid::Exception&) {
+            rp->wait_result = "Exception";
+          }
+          rp->wait_end = sg4::Engine::get_clock();
+        }));
+      }
     } else
       apply_event(c->evs[it.idx]);
   }
-  for (auto& r : runs) {
-    if (not r.act)
-      continue;
-    try {
-      r.act->wait();
-      r.wait_result = "ok";
-    } catch (const simgrid::HostFailureException&) {
-      r.wait_result = "HostFailure";
-    } catch (const simgrid::NetworkFailureException&) {
-      r.wait_result = "NetworkFailure";
-    } catch (const simgrid::StorageFailureException&) {
-      r.wait_result = "StorageFailure";
-    } catch (const simgrid::CancelException&) {
-      r.wait_result = "Cancel";
-    } catch (const simgrid::Exception& e) {
-      r.wait_result = "Exception";
-    }
-  }
+  for (auto& w : waiters)
+    w->join();
   if (c->horizon > sg4::Engine::get_clock())
     sg4::this_actor::sleep_until(c->horizon);
   if (g_energy >= 1) {
@@ -481,9 +486,9 @@ static int run_case(const Case& c)
       printf("A %s %s start=-1 finish=-1 state=NEVER seen=-1 wait=-\n", r.spec.id.c_str(), r.spec.kind.c_str());
       continue;
     }
-    printf("A %s %s start=%.17g finish=%.17g state=%s seen=%.17g wait=%s\n", r.spec.id.c_str(), r.spec.kind.c_str(),
-           r.act->get_start_time(), r.act->get_finish_time(), r.act->get_state_str(), r.seen_finish,
-           r.wait_result.c_str());
+    printf("A %s %s start=%.17g finish=%.17g state=%s seen=%.17g wait=%s waitend=%.17g istate=%s\n", r.spec.id.c_str(),
+           r.spec.kind.c_str(), r.act->get_start_time(), r.act->get_finish_time(), r.act->get_state_str(), r.seen_finish,
+           r.wait_result.c_str(), r.wait_end, r.act->get_impl()->get_state_str());
   }
   printf("CLOCK %.17g\n", sg4::Engine::get_clock());
   fflush(stdout);
